@@ -363,7 +363,7 @@ func RuleE3ii(c *Ctx) {
 					return true
 				}
 				n++
-				key := fmt.Sprintf("%s:%s->%s", c.P.DeclName(fd), fld.Name(), g.Name())
+				key := fmt.Sprintf("%s->%s", fld.Name(), g.Name()) // the construct: the visited set and the call it guards, wherever they are written
 				var bad []string
 				for i, a := range call.Args {
 					id, ok := ast.Unparen(a).(*ast.Ident)
